@@ -196,6 +196,10 @@ def gen_cases(ctx, rnd):
     for d in pv.LISTS + pv.LIST_CONTAINERS:
         for v in lv + (rnd.sample(atoms, 8) if quick else atoms):
             cases.append(dict(d=d, v=v))
+    dv = pv.dict_values(rnd, 10 if quick else 100)
+    for d in pv.DICTS:
+        for v in dv + (rnd.sample(atoms, 6) if quick else atoms):
+            cases.append(dict(d=d, v=v))
     tv = pv.tuple_values(rnd, 25 if quick else 250, 2)
     for d in fixed:
         vals = (atoms if not quick else rnd.sample(atoms, 42)) + (tv if d[0] == "DTuple" else tv[:8])
